@@ -145,6 +145,7 @@ func c20Profile() *profile {
 			"reregister":    1,
 			"open":          8,
 			"open_fh":       4,
+			"open_then":     3,
 			"close":         4,
 			"downgrade":     1,
 			"lock_new":      16,
